@@ -66,7 +66,7 @@ def _wide(args):
         carrier = 'scalar' if n == 1 else rng.choice(['list', 'ndarray', 'tuple'])
         out.append(obs_infer(fx, np, [pid], vals, sa, given, nw, nf, ni, 64, carrier=carrier, prior=rng.random() < 0.3, raw=(given in ('f', 'if') and rng.random() < 0.5)))
         # the same through narrow NumPy carriers, when every value is exactly representable in the dtype
-        for nt in ('float32', 'float16', 'int32', 'int16', 'int8'):
+        for nt in ('float32', 'float16', 'int32', 'int16', 'int8', 'uint8', 'uint16', 'uint32', 'uint64', 'int64', 'float64'):      # (unsigned dtypes too: the default signedness does not depend on the carrier)
             tp = getattr(np, nt)
             try:
                 if np.issubdtype(tp, np.integer):
